@@ -163,11 +163,7 @@ func R14Callbacks(c *Ctx) {
 	}
 	names := c.readTypeNames()
 	var cmdParam *ssa.Parameter
-	for _, p := range td.Params {
-		if p.Name() == "CommandID" {
-			cmdParam = p
-		}
-	}
+	cmdParam = switchedParam(td)
 	if cmdParam == nil {
 		c.R.Anchor(rule, "TaskDispatch parameter CommandID")
 		return
@@ -287,4 +283,38 @@ func R14Callbacks(c *Ctx) {
 		}
 	}
 	c.R.Extra["callback_arms_compared"] = compared
+}
+
+// switchedParam: the integer parameter that is compared (==) with the largest number of distinct constants —
+// the one the function's command switch is on; found by use, not by name.
+func switchedParam(fn *ssa.Function) *ssa.Parameter {
+	count := map[*ssa.Parameter]map[int64]bool{}
+	for _, b := range fn.Blocks {
+		for _, in := range b.Instrs {
+			bo, ok := in.(*ssa.BinOp)
+			if !ok || bo.Op != token.EQL {
+				continue
+			}
+			k, isC := ConstInt(bo.Y)
+			if !isC {
+				continue
+			}
+			if p := ParamOf(bo.X); p != nil && p.Parent() == fn {
+				if count[p] == nil {
+					count[p] = map[int64]bool{}
+				}
+				count[p][k] = true
+			}
+		}
+	}
+	var best *ssa.Parameter
+	for p, ks := range count {
+		if best == nil || len(ks) > len(count[best]) || (len(ks) == len(count[best]) && p.Name() < best.Name()) {
+			best = p
+		}
+	}
+	if best != nil && len(count[best]) < 5 {
+		return nil
+	}
+	return best
 }
